@@ -36,12 +36,14 @@ func NewBtcChain(
 	executor *executor.Executor,
 	mh *message.MessageHandler,
 	id uint8,
+	startBlock *big.Int,
 ) *BtcChain {
 	return &BtcChain{
-		listener: listener,
-		executor: executor,
-		mh:       mh,
-		id:       id,
+		listener:   listener,
+		executor:   executor,
+		mh:         mh,
+		id:         id,
+		startBlock: startBlock,
 
 		logger: log.With().Uint8("domainID", id).Logger()}
 }
